@@ -72,6 +72,19 @@ def split_raw(buf: bytes):
     return out
 
 
+def split_stream(buf: bytes):
+    """[(seq, payload)] of the COMPLETE raw packets at the front of a byte stream (a truncated tail is ignored)."""
+    out = []
+    i = 0
+    while i + 4 <= len(buf):
+        l = int.from_bytes(buf[i:i + 3], "little")
+        if i + 4 + l > len(buf):
+            break
+        out.append((buf[i + 3], bytes(buf[i + 4:i + 4 + l])))
+        i += 4 + l
+    return out
+
+
 def reassemble(buf: bytes, maxp: int = MAXP):
     """Standard client reassembly: [(first_seq, payload, n_packets)]; raises on non-consecutive ids inside a payload."""
     out = []
